@@ -774,10 +774,18 @@ func (r *Raft) submitReadOnlyOperation(
 		return operationFuture
 	}
 
+	// The commit index of this node may lag behind the entries that were committed by
+	// previous leaders until an entry from the current term has been committed. All of
+	// those entries precede the last entry of the log, so wait for it to be applied instead.
+	readIndex := r.commitIndex
+	if !r.committedThisTerm() {
+		readIndex = r.log.LastIndex()
+	}
+
 	operation := &Operation{
 		Bytes:         operationBytes,
 		OperationType: readOnlyType,
-		readIndex:     r.commitIndex,
+		readIndex:     readIndex,
 	}
 	r.operationManager.pendingReadOnly[operation] = operationFuture.responseCh
 
